@@ -273,14 +273,13 @@ class Client(object):
             return unknown_command
         # The keyword may come without any mechanism.
         auth_ext = self.extensions.getparam('AUTH') or ''
-        advertised = [self._encode(mech_name)
-                      for mech_name in auth_ext.split()]
         usable = []
-        for mech_name in advertised:
+        for mech_name in auth_ext.split():
             # Servers advertise mechanisms this library has never heard of.
             try:
+                mech_name = mech_name.encode('ascii')
                 SASLAuth.named([mech_name])
-            except KeyError:
+            except (UnicodeError, KeyError):
                 continue
             usable.append(mech_name)
         auth = AuthSession(SASLAuth.named(usable), self.io)
